@@ -22,6 +22,7 @@ import DW.Lemmas.GenDumpPy
 import DW.Lemmas.GenLoad
 import DW.Lemmas.GenLoadPy
 import DW.Lemmas.GenEnv
+import DW.Lemmas.GenLoadV1
 import DW.Generated.Tables
 
 namespace DW.Props.C15
@@ -316,5 +317,79 @@ example :
     (checkList (genScope (fun _ => true) g) (params g) (genBody (fun _ => true) g)).isSome = true ∧
     (checkList (genScope (fun _ => true) g) (params g) ((headStmts g).dropLast ++ (fieldBlock (fun _ => true) g ++ GenEnv.tailStmts))).isSome = false := by
   decide +kernel
+
+/-! ### the skeleton of the v1 load-function generator, for every class -/
+
+open DW.GenLoadV1 in
+/-- **C15 (the v1 load-function generator, every class; skeleton).**  `DW/Model/GenLoadV1.lean` writes the body of
+`__dataclass_wizard_from_dict_<Class>__` around the per-field value expressions (compared byte for byte with the library's output on
+every run): `_pre_from_dict`, `init_kwargs`, the key counter, the `try` block with lookup / condition / assignment per constructor
+field (one key, several keys, one path, several paths; any names, keys and path parts), the tag-key line, the handler, the catch-all
+entry or the unknown-key block, the constructor call.  For every such class, under Python's scoping rule (a name bound anywhere in
+the body is local): if the outside names the skeleton itself uses are held outside and bound nowhere in the body (`OuterOk`), every
+value expression reads only `v1` and outside names (`ExprsOk`), and no chain of alternative keys / paths is empty (`LookupsOk`), then
+no path through the function reads an unbound name — except, by design, the constructor call, whose variables are locals of the
+function, so that the only possible failure is the UnboundLocalError the template catches (`S2.tryUnbound`; `ctorVars_local`).  That
+the names the body binds are locals of the function is not assumed: it holds by construction (`localsOk_genScope`).  The three
+hypotheses are checked executably on every generated function of every run (the driver evaluates `wellScoped` on the inputs cut out
+of the generated source and the verdict is compared with running the function). -/
+theorem C15_genloadv1_well_scoped (printable : Char → Bool) (g : VIn) (outer : List S) (hk : LookupsOk g)
+    (ho : OuterOk (genScope printable g outer) g) (he : ExprsOk (genScope printable g outer) g) :
+    wellScoped printable g outer = true :=
+  wellScoped_all printable g outer hk ho he
+
+open DW.GenLoadV1 in
+/-- the same in any scope whose locals contain what the body binds (the form the proof is carried out in) -/
+theorem C15_genloadv1_well_scoped_in (printable : Char → Bool) (sc : DW.GenLoad.Scope) (g : VIn) (hl : LocalsOk sc g)
+    (ho : OuterOk sc g) (he : ExprsOk sc g) (hk : LookupsOk g) :
+    (checkL2 sc ["o".toList] (genBody printable g)).isSome = true :=
+  wellScoped_in printable sc g hl ho he hk
+
+open DW.GenLoadV1 in
+/-- the variables handed to the constructor are locals: reading an unbound one raises the UnboundLocalError the template catches,
+never a NameError -/
+theorem C15_genloadv1_ctor_vars_local (printable : Char → Bool) (g : VIn) (outer : List S) (hk : LookupsOk g) :
+    ∀ v ∈ ctorVars g, v ∈ (genScope printable g outer).locals :=
+  ctorVars_local _ g (localsOk_genScope printable g outer hk)
+
+open DW.GenLoadV1 DW.GenDump in
+/-- non-vacuity: a class with a required field read from two alternative keys, a defaulted field at a path and a required CatchAll
+field under RAISE-less counting; the text, and the checker's verdict with the right and with a deficient outside (no `safe_get`) -/
+example :
+    let g : VIn := { catchAll := .required "rest".toList 1,
+                     fields := [{ name := "a".toList, lookup := .anyOf [.lit "A".toList, .lit "it's".toList], expr := "int(v1)".toList,
+                                  exprReads := ["v1".toList, "int".toList] },
+                                { name := "b".toList, hasDefault := true, lookup := .pathAssign [.str "x".toList, .int 0],
+                                  expr := "v1".toList, exprReads := ["v1".toList] }] }
+    let outer : List S := ["cls", "fields", "MISSING", "re_raise", "raise_missing_fields", "locals", "Exception", "aliases", "len",
+                            "safe_get", "int"].map String.toList
+    ((genBody (fun _ => true) g).flatMap (S2.render 1)).map String.ofList =
+      ["  init_kwargs = {}", "  i = 0", "  try:", "    field='a'",
+       "    if ((v1 := o.get('A', MISSING)) is not MISSING\n     or (v1 := o.get(\"it's\", MISSING)) is not MISSING):",
+       "      i+=1; __a__v = int(v1)", "    field='b'; v1=safe_get(o, ['x', 0], False)", "    if v1 is not MISSING:",
+       "      i+=1; init_kwargs[field] = v1", "  except Exception as e:",
+       "    re_raise(e, cls, o, fields, field, locals().get('v1'))",
+       "  __rest__v = {} if len(o) == i else {k: o[k] for k in o if k not in aliases}", "  try:",
+       "    return cls(__a__v, __rest__v, **init_kwargs)", "  except UnboundLocalError:",
+       "    raise_missing_fields(locals(), o, cls, fields)"] ∧
+    wellScoped (fun _ => true) g outer = true ∧
+    wellScoped (fun _ => true) g (outer.filter (· != "safe_get".toList)) = false := by
+  decide +kernel
+
+open DW.GenLoadV1 DW.GenDump in
+/-- … and the premises of the theorem are met by that class in that scope -/
+example :
+    let g : VIn := { catchAll := .required "rest".toList 1,
+                     fields := [{ name := "a".toList, lookup := .anyOf [.lit "A".toList, .lit "it's".toList], expr := "int(v1)".toList,
+                                  exprReads := ["v1".toList, "int".toList] },
+                                { name := "b".toList, hasDefault := true, lookup := .pathAssign [.str "x".toList, .int 0],
+                                  expr := "v1".toList, exprReads := ["v1".toList] }] }
+    let outer : List S := ["cls", "fields", "MISSING", "re_raise", "raise_missing_fields", "locals", "Exception", "aliases", "len",
+                            "safe_get", "int"].map String.toList
+    LookupsOk g ∧ OuterOk (genScope (fun _ => true) g outer) g ∧ ExprsOk (genScope (fun _ => true) g outer) g := by
+  refine ⟨?_, ?_, ?_⟩
+  · unfold LookupsOk; decide +kernel
+  · unfold OuterOk; decide +kernel
+  · unfold ExprsOk; decide +kernel
 
 end DW.Props.C15
